@@ -159,7 +159,15 @@ func c19Ufs(x *Ctx) {
 					return
 				}
 				for k := 0; k < nops; k++ {
-					switch r.Intn(9) {
+					switch r.Intn(11) {
+					case 9:
+						// look-ups of names that do not exist, from the shared root fid (first element missing) and deeper
+						clnt.FStat(fmt.Sprintf("no-such-%d", r.Intn(3)))
+					case 10:
+						nf := clnt.FidAlloc()
+						if _, err := clnt.Walk(clnt.Root, nf, []string{[]string{"missing", "shared"}[r.Intn(2)], "missing-too"}); err == nil {
+							clnt.Clunk(nf)
+						}
 					case 7:
 						// a walk that goes up again
 						nf := clnt.FidAlloc()
